@@ -531,7 +531,7 @@ func (c *Ctx) c12TOTPReplay() {
 					continue
 				}
 				okRej = HoldsAtJoin(in, func(f Fact) bool {
-					rel := f.Rel()
+					rel := f.EqRel()
 					if rel.Op != token.NEQ {
 						return false
 					}
